@@ -178,8 +178,11 @@ def gen_term(rng, fmt, profile):
         return ["L", lex, None, None]
     if r < 0.62:
         return ["L", lex, None, rng.choice(LANGS)]
-    if r < 0.72:
+    if r < 0.70:
         return ["L", rng.choice(["0", "7", "42", "1000"]), XSD + "integer", None]
+    if r < 0.72:
+        return rng.choice([["L", "0.0", XSD + "double", None], ["L", "0.0", XSD + "decimal", None],
+                           ["L", "P0D", XSD + "duration", None], ["L", "", XSD + "string", None]])
     if r < 0.78:
         return ["L", rng.choice(["true", "false"]), XSD + "boolean", None]
     dt = rng.choice(DTS)
@@ -205,7 +208,7 @@ class C16(Suite):
     case_ty = "case"
     obs_ty = "obs"
     kf = "kf"
-    kf_ids = {1: "F11a", 2: "F11b", 3: "F11c", 4: "F11d", 5: "F11e", 6: "F11f", 7: "F11g"}
+    kf_ids = {1: "F11h", 2: "F11b", 3: "F11c", 4: "F11d", 5: "F11e", 6: "F11f"}
     corr = ("JSONResultSerializer.serialize/termToJSON/_bindingToJSON, JSONResult/parseJsonTerm, "
             "XMLResultSerializer/SPARQLXMLWriter, XMLResult/parseTerm, TSVResultParser.parse/convertTerm, "
             "CSVResultSerializer.serialize/serializeTerm, Result.serialize, Result.parse")
@@ -233,7 +236,11 @@ class C16(Suite):
         if dead is not None and rng.random() < 0.6:
             dead = vars_[-1]
         p_bound = rng.choice([0.5, 0.7, 0.9])
-        allow_empty_rows = fmt != "tsv" or rng.random() < 0.12
+        allow_empty_rows = True
+        if fmt == "tsv" and vars_ and rng.random() < 0.03:
+            if dead == vars_[-1]:
+                dead = vars_[-1] + "\u1680"
+            vars_[-1] = vars_[-1] + "\u1680"   # legal VARNAME character that str.strip() treats as blank
         rows = []
         for _ in range(nrows):
             row = []
